@@ -14,7 +14,7 @@
 
 From Coq Require Import String List NArith Bool Arith.
 From Nexus Require Import Conc.SkelTypes Conc.Machine Conc.MachineFacts Conc.Shutdown
-  Conc.ShutdownWitness Conc.ShutdownProofs Conc.ShutdownLock Conc.ShutdownFlag Conc.ShutdownWg Conc.ShutdownCloser Conc.Skeleton Conc.SkelObligationsC06 gen.GenSkeleton.
+  Conc.ShutdownWitness Conc.ShutdownProofs Conc.ShutdownLock Conc.ShutdownFlag Conc.ShutdownWg Conc.ShutdownCloser Conc.ShutdownTimers Conc.Skeleton Conc.SkelObligationsC06 gen.GenSkeleton.
 Import ListNotations.
 
 (** ** Tie to the source, re-established on every run *)
@@ -107,6 +107,18 @@ Theorem handlers_gone_after_wait :
     (forall l', In l' (procs s) -> joining l' = false).
 Proof. exact ShutdownCloser.handlers_gone_after_wait. Qed.
 Print Assumptions handlers_gone_after_wait.
+
+
+(** [dealer.timers] (fix 01) counts exactly the call-timer goroutines that have
+    not finished, plus the dealer between [timers.Add(1)] and the [go]
+    statement — what [dealer.close] relies on when it waits for the timers
+    before closing its action channel. *)
+Theorem call_timers_counted :
+  forall (scr : nat -> list msg * bool) (K : nat) (p : params) (s : sstate),
+    sreach all_fixed scr K (init p) s -> outcome s = None ->
+    wgs s WTimers = count tlive (procs s).
+Proof. intros scr K p s Hr Ho. exact (proj2 (wg_timers_invariant scr K p s Hr Ho)). Qed.
+Print Assumptions call_timers_counted.
 
 Theorem closed_flag_monotone :
   forall (scr : nat -> list msg * bool) (K : nat) (s : sstate) e s',
